@@ -415,39 +415,54 @@ fn c34_one(rep: &mut Report, factory: &Factory, b: &Value) {
     let min = b["min"].as_i64().unwrap();
     let expiry = b["expiry"].as_i64().unwrap();
     let model_wait = b["wait"].as_i64().unwrap() * UNIT;
+    let prev = b["prev"].as_i64().unwrap_or(-1);
     let bed = TestBed::new();
-    let mut ta = Ca::new("ca1", None, 0, "rsync://r1.verif.test/repo/ca1/");
-    ta.prefixes = vec!["10.0.0.0/8".into()];
-    ta.asns = vec![(64000, 65000)];
     let drift = chrono::Utc::now().timestamp() - factory.now.timestamp();
-    if expiry != 0 {
-        ta.mft.next_update_secs = drift + expiry * UNIT;
-    }
-    ta.objects.push(Obj { name: "o1.roa".into(), kind: ObjKind::Roa { asn: 64501, prefixes: vec![("10.1.0.0/16".into(), 16)] },
-        serial: 11, validity: (-2, 48), fault: Fault::None });
-    let world = World { tals: vec![Tal { name: "tal1".into(), ca: 0, uris: vec![("rsync://r1.verif.test/repo/ta1.cer".into(), TaVariant::Good)] }], cas: vec![ta] };
-    bed.publish(&world.build(factory));
+    // the same payload in every version; the manifest (number, nextUpdate) differs
+    let world_with = |exp: i64, number: u64| {
+        let mut ta = Ca::new("ca1", None, 0, "rsync://r1.verif.test/repo/ca1/");
+        ta.prefixes = vec!["10.0.0.0/8".into()];
+        ta.asns = vec![(64000, 65000)];
+        ta.mft.number = number;
+        ta.mft.this_update = -3 + number as i64;
+        ta.mft_serial = 100 + number;
+        if exp != 0 {
+            ta.mft.next_update_secs = drift + exp * UNIT;
+        }
+        ta.objects.push(Obj { name: "o1.roa".into(), kind: ObjKind::Roa { asn: 64501, prefixes: vec![("10.1.0.0/16".into(), 16)] },
+            serial: 11, validity: (-2, 48), fault: Fault::None });
+        World { tals: vec![Tal { name: "tal1".into(), ca: 0, uris: vec![("rsync://r1.verif.test/repo/ta1.cer".into(), TaVariant::Good)] }], cas: vec![ta] }
+    };
     let mut cfg = bed.config();
     cfg.refresh = Duration::from_secs((refresh * UNIT) as u64);
     cfg.min_refresh = if min == 0 { None } else { Some(Duration::from_secs((min * UNIT) as u64)) };
     let history = SharedHistory::from_config(&cfg);
+    let mut versions: Vec<(i64, u64)> = Vec::new();
+    if prev >= 0 { versions.push((prev, 1)); }
+    versions.push((expiry, 2));
+    // the engine reads the TALs when it is created
+    bed.publish(&world_with(versions[0].0, versions[0].1).build(factory));
     let mut engine = match routinator::engine::Engine::new(&cfg, true) { Ok(e) => e, Err(_) => { rep.divergence("C34", "engine"); return } };
     let _ = engine.ignite();
-    history.mark_update_start();
-    let (report, metrics) = match routinator::payload::ValidationReport::process(&engine, &cfg, false) {
-        Ok(x) => x, Err(_) => { rep.divergence("C34", "run failed"); return }
-    };
-    history.update(report, &routinator::slurm::LocalExceptions::empty(), metrics);
-    history.mark_update_done();
+    for (exp, number) in versions {
+        bed.publish(&world_with(exp, number).build(factory));
+        history.mark_update_start();
+        let (report, metrics) = match routinator::payload::ValidationReport::process(&engine, &cfg, false) {
+            Ok(x) => x, Err(_) => { rep.divergence("C34", "run failed"); return }
+        };
+        history.update(report, &routinator::slurm::LocalExceptions::empty(), metrics);
+        history.mark_update_done();
+    }
     let wait = history.read().refresh_wait().as_secs() as i64;
     let has_payload = history.read().current().map(|s| s.origins().count()).unwrap_or(0);
     rep.eval("C34"); rep.trace("C34");
     let ctx = json!({"refresh_s": refresh * UNIT, "min_refresh_s": if min == 0 { Value::Null } else { json!(min * UNIT) },
-                     "data_expires_in_s": if expiry == 0 { Value::Null } else { json!(expiry * UNIT) }});
+                     "data_expires_in_s": if expiry == 0 { Value::Null } else { json!(expiry * UNIT) },
+                     "earlier_run_same_payload_expiring_in_s": if prev < 0 { json!("none") } else if prev == 0 { Value::Null } else { json!(prev * UNIT) }});
     let observed = json!({"wait_s": wait, "model_wait_s": model_wait, "origins": has_payload});
     if has_payload == 0 { rep.divergence("C34", "world produced no payload"); return }
-    if expiry != 0 && expiry < refresh && min != 0 { rep.nontrivial("C34", format!("{refresh}/{min}/{expiry}")); }
-    if min != 0 && min != refresh { rep.nontrivial("C34", format!("{refresh}/{min}/{expiry}")); }
+    if expiry != 0 && expiry < refresh && min != 0 { rep.nontrivial("C34", format!("{refresh}/{min}/{expiry}/{prev}")); }
+    if min != 0 && min != refresh { rep.nontrivial("C34", format!("{refresh}/{min}/{expiry}/{prev}")); }
     let tol = 10;
     let lower = if min == 0 { refresh } else { min } * UNIT;
     let upper = refresh.max(min) * UNIT;
